@@ -244,7 +244,7 @@ Qed.
 
 End EqTerm.
 
-(* ---------------------------------------------------------------- the second walk of the proposed repair *)
+(* ---------------------------------------------------------------- the second walk of _maps_are_matched (fix 8a96a0c) *)
 Lemma edge_eqb_eq (a b : edge) : edge_eqb a b = true <-> a = b.
 Proof.
   destruct a as [a1 a2], b as [b1 b2]. unfold edge_eqb. simpl. rewrite andb_true_iff, !pair_eqb_eq.
